@@ -912,7 +912,7 @@ class SyncState:  # pylint: disable=too-many-instance-attributes, too-many-publi
                 self._changeset_storage.add(ent)
         else:
             # ent without oid doesn't go in changeset
-            if ent[side].changed and not ent[OTHER_SIDE[side]].changed:
+            if not (ent[OTHER_SIDE[side]].changed and ent[OTHER_SIDE[side]].oid):
                 self._changeset_storage.discard(ent)
 
     def lookup_creation(self, content_hash, side):
